@@ -9,6 +9,11 @@
 #           [SCK idle] x h.  The sample edge is the boundary between the two halves in both cases.
 #           ("narrow" configs drive SDI=b only in the cycle before and the cycle after the sample edge, ~b elsewhere)
 #   end   : (any bit position = CS abort; at a word boundary = normal end) SCK idle for h with CS active, CS inactive
+#   bitend/wordend (configs with cs_offsets): one more SCK period during which CS is released after e = 0 .. 2h cycles,
+#           i.e. at *every* cycle offset relative to both SCK edges: e = 0 same cycle as the first edge, e = h same
+#           cycle as the sample edge (that edge then happened while deselected and does not count), e = h+1, h+2 one
+#           and two cycles after the sample edge (the bit counts; if it was the word's last one the word must be
+#           reported), e = 2h at the end of the period.  SCK finishes its period and returns to idle while deselected.
 # Transactions carry up to `max_words` words; an unlimited number of transactions follow each other.
 #
 # Oracle (from the statement):
@@ -32,7 +37,8 @@ def configs(tier):
     def add(ws, cpol, cpha, msb=True, h=2, **kw):
         out.append(dict(word_size=ws, cpol=cpol, cpha=cpha, msb_first=msb, h=h, **kw))
     if tier == "quick":
-        add(3, 0, 1); add(3, 0, 0, h=3); add(4, 1, 1); add(5, 1, 0); add(5, 0, 1, msb=False, h=3)
+        add(3, 0, 1, cs_offsets=True); add(2, 1, 0, h=3, cs_offsets=True); add(4, 0, 0, cs_offsets=True, max_words=2)
+        add(3, 0, 0, h=3); add(4, 1, 1); add(5, 1, 0); add(5, 0, 1, msb=False, h=3)
         add(7, 1, 1, narrow=True); add(8, 0, 0, msb=False); add(8, 0, 1, h=3); add(12, 0, 1); add(12, 1, 0, h=3)
         add(16, 1, 1); add(16, 0, 0, narrow=True); add(6, 0, 1, cs_idles_high=True); add(2, 0, 1); add(1, 0, 0)
     else:
@@ -40,9 +46,10 @@ def configs(tier):
             for cpol in (0, 1):
                 for cpha in (0, 1):
                     i = ws + 2 * cpol + cpha
-                    add(ws, cpol, cpha, msb=bool(i & 1), h=2 + (i // 2) % 2, narrow=bool((i // 4) & 1), max_words=3)
+                    add(ws, cpol, cpha, msb=bool(i & 1), h=2 + (i // 2) % 2, narrow=bool((i // 4) & 1), max_words=3,
+                        cs_offsets=(ws <= 8 or ws in (12, 16)))
         for ws in (3, 4, 5):
-            add(ws, 0, 1, full=True, max_words=3); add(ws, 1, 0, msb=False, h=3, full=True, max_words=3)
+            add(ws, 0, 1, full=True, max_words=3, cs_offsets=(ws == 3)); add(ws, 1, 0, msb=False, h=3, full=True, max_words=3, cs_offsets=(ws == 3))
         add(7, 0, 1, cs_idles_high=True); add(10, 1, 0, msb=False, cs_idles_high=True, h=3)
         add(5, 0, 1, max_words=5); add(6, 0, 0, max_words=5)
     return out
@@ -60,6 +67,7 @@ class SpiSpec(Spec):
         ws = self.ws = cfg["word_size"]
         self.cpol, self.cpha, self.msb, self.h = cfg["cpol"], cfg["cpha"], cfg["msb_first"], cfg["h"]
         self.narrow = cfg.get("narrow", False)
+        self.cs_offsets = bool(cfg.get("cs_offsets"))
         self.cs_on = 0 if cfg.get("cs_idles_high") else 1
         self.max_words = cfg.get("max_words", 3)
         # CS aborts leave arbitrary shifted garbage in the receive shift register; the closure over *repeated* aborts
@@ -108,12 +116,22 @@ class SpiSpec(Spec):
                 acts += [("word", v, t) for v in self.rx_vals for t in self.tx_vals]
         else:
             acts.append(("bit",))
+        if self.cs_offsets and k < self.max_words:
+            for e in range(2 * self.h + 1):
+                counted = 1 if e > self.h else 0
+                if (j + counted) % self.ws != 0 and env[8] == 0: continue      # would be a mid-word abort, none left
+                if j == 0:
+                    acts += [("wordend", v, e) for v in (self.rx_vals[0], self.rx_vals[-1])]
+                else:
+                    acts.append(("bitend", e))
         return acts
 
     def assumptions(self):
         return ["mid-word CS aborts per history (bound): quick unlimited for word sizes <= 6, one beyond; thorough unlimited <= 8, two <= 12, one beyond",
-                "SPI master in the device's configured mode; SCK half-period 2 or 3 system cycles; SCK idle whenever CS changes",
-                "CS set-up (CS active to first SCK edge) >= h cycles, CS hold >= h cycles, CS inactive gap = 3 cycles",
+                "SPI master in the device's configured mode; SCK half-period 2 or 3 system cycles",
+                "CS is asserted with SCK idle, set-up (CS active to first SCK edge) >= h cycles, CS inactive gap >= 3 cycles",
+                "CS release: h cycles after the end of a bit period, or (configs with cs_offsets) at every cycle offset 0..2h inside an SCK period incl. the same cycle as either SCK edge; a sample edge in the cycle in which CS is already inactive does not count",
+                "a word whose last sample edge happened while CS was active must be reported however soon CS is released afterwards (by the next CS assertion)",
                 "SDI valid at least one system cycle either side of the sample edge ('narrow' configs drive the complement elsewhere)",
                 "word_out changes only while CS is inactive or at the start of a word (it is then held for that whole word and is the value expected back in the following word)",
                 "word_complete must strobe before the next sample edge (>= 2h cycles) or the next CS assertion; no exact latency demanded",
@@ -177,8 +195,57 @@ class SpiSpec(Spec):
             self.cover["word_sent"] += 1
             if st["k"] >= 2: self.cover["second_word_sent"] += 1
 
+    def _bit_release(self, cur, st, e):
+        """one SCK period with CS active only during its first e cycles; ends the transaction"""
+        ws, h = self.ws, self.h
+        j, v = st["j"], st["v"]
+        b = (v >> (ws - 1 - j)) & 1 if self.msb else (v >> j) & 1
+        lv_a, lv_b = (self.idle_lvl, self.act_lvl) if self.cpha == 0 else (self.act_lvl, self.idle_lvl)
+        counted = e > h                         # CS still active in the cycle in which the device sees the sample edge
+        for i in range(2 * h):
+            cs = self.cs_on if i < e else 1 - self.cs_on
+            if i == h and counted:
+                self._need_reported(st, "next sample edge")
+                if j + 1 == ws:
+                    st["pending"] = v
+                    st["_closing"] = 1
+            sdi = b if (not self.narrow or i in (h - 1, h)) else 1 - b
+            o = self._cyc(cur, st, lv_a if i < h else lv_b, sdi, cs)
+            if self.cpha == 1 and i < e:
+                if i == h - 1: self._check_sdo(st, o, "last cycle before the sample edge")
+                elif i == h: self._check_sdo(st, o, "first cycle after the sample edge")
+        self._cyc(cur, st, self.idle_lvl, 0, 1 - self.cs_on)
+        newj = j + (1 if counted else 0)
+        if newj == ws:
+            st["_closing"] = 0
+            st["k"] += 1
+            self.cover["word_sent"] += 1
+            if st["k"] >= 2: self.cover["second_word_sent"] += 1
+            self.cover["release_%d_after_last_edge" % (e - h)] += 1
+        else:
+            if newj:
+                self.cover["abort_mid_word"] += 1
+                if st["aborts"] > 0: st["aborts"] -= 1
+            if e == h: self.cover["release_with_sample_edge"] += 1
+            if e == 0: self.cover["release_with_first_edge"] += 1
+        st.update(active=0, k=0, j=0, v=0, txcur=0)
+
     def apply(self, cur, env, a):
         st = dict(zip(("active", "k", "j", "v", "txcur", "wout", "pending", "orders", "aborts"), env))
+        kind = a[0]
+        if kind == "wordend":
+            st["v"] = a[1]
+            self._bit_release(cur, st, a[2])
+        elif kind == "bitend":
+            self._bit_release(cur, st, a[1])
+        elif kind == "begin":
+            self._apply_begin(cur, st, a)
+        else:
+            self._apply_rest(cur, st, a)
+        self.outcomes.add((kind, st["pending"] >= 0, st["orders"]))
+        return tuple(st[n] for n in ("active", "k", "j", "v", "txcur", "wout", "pending", "orders", "aborts"))
+
+    def _apply_begin(self, cur, st, a):
         kind = a[0]
         if kind == "begin":
             st["wout"] = a[1]
@@ -188,7 +255,10 @@ class SpiSpec(Spec):
             for _ in range(self.h):
                 self._cyc(cur, st, self.idle_lvl, 0, self.cs_on)
             st.update(active=1, k=0, j=0, txcur=st["wout"])
-        elif kind == "word":
+
+    def _apply_rest(self, cur, st, a):
+        kind = a[0]
+        if kind == "word":
             st["v"] = a[1]
             st["wout"] = a[2]
             self._bit(cur, st)
@@ -202,13 +272,13 @@ class SpiSpec(Spec):
                 self._cyc(cur, st, self.idle_lvl, 0, self.cs_on)
             self._cyc(cur, st, self.idle_lvl, 0, 1 - self.cs_on)
             st.update(active=0, k=0, j=0, v=0, txcur=0)
-        self.outcomes.add((kind, st["pending"] >= 0, st["orders"]))
-        return tuple(st[n] for n in ("active", "k", "j", "v", "txcur", "wout", "pending", "orders", "aborts"))
 
     def goals(self):
         g = ["report", "word_sent", "second_word_sent", "report_word2", "report_word3", "abort_mid_word"] if self.ws > 1 else \
             ["report", "word_sent", "second_word_sent", "report_word2", "report_word3"]
         if self.cpha == 1: g += ["sdo_checked", "sdo_checked_later_word"]
+        if self.cs_offsets:
+            g += ["release_1_after_last_edge", "release_2_after_last_edge", "release_with_sample_edge", "release_with_first_edge"]
         return g
 
 
